@@ -3,7 +3,6 @@ package c05
 import (
 	"fmt"
 	"math/big"
-	"os" // DEVTMP
 	"sort"
 	"strings"
 
@@ -120,9 +119,6 @@ func suiteByName(nm string) suite {
 // drawCfg draws the group and the configuration of the dealings.
 func drawCfg(t *rapid.T) (*cfg, suite) {
 	s := suiteByName(rapid.SampledFrom(groupWeights).Draw(t, "group"))
-	if g := os.Getenv("C05_GROUP"); g != "" { // DEVTMP
-		s = suiteByName(g) // DEVTMP
-	} // DEVTMP
 	slow := slowGroups[s.name()]
 	c := &cfg{}
 	c.scheme = rapid.SampledFrom([]string{schemeFeldman, schemePedersen}).Draw(t, "scheme")
